@@ -29,6 +29,7 @@ type OpenOpts struct {
 	NTLM      *wsraw.NTLMCreds
 	Basic     string // "user:pass" for local auth
 	Headers   [][2]string
+	Cid       string // connection identifier to present ("" = a fresh unique one)
 }
 
 func (i *Inst) dialOpts(o OpenOpts, cid string) wsraw.DialOpts {
@@ -47,6 +48,9 @@ func (i *Inst) dialOpts(o OpenOpts, cid string) wsraw.DialOpts {
 // about to read (hook events), so that subsequent sends are in lock-step.
 func (i *Inst) Open(o OpenOpts) (*TunConn, *wsraw.HTTPReply, error) {
 	cid := i.R.NextCid("t")
+	if o.Cid != "" {
+		cid = o.Cid
+	}
 	t := &TunConn{I: i, Cid: cid, Transport: o.Transport, OpenMark: i.P.Mark()}
 	d := i.dialOpts(o, cid)
 	switch o.Transport {
